@@ -15,7 +15,7 @@ m = dict(version=1, setup_cmd="./setup.sh",
     hooks=dict(guard="OPENATH_ATHLIB_VERIF", enable="no source hooks: monitors are attached from the harness (vf/attach.py) to the functions imported from /repo's working tree",
                baseline_off_cmd=TEST, source_commits=[], add_only=True),
     engines=[dict(name="vf", path="/verif/vf", serves_properties=sorted(CHECKS),
-                  kind_free_text="runtime monitors (recorders, icontract contracts, pattern proxies, line-event scheduler, node bridge) attached to the real athlib code, driven by sharded generated workloads; reference-model oracles")],
+                  kind_free_text="runtime monitors (recorders, icontract contracts, pattern proxies, line-event scheduler, node bridge) attached to the real athlib code, driven by sharded generated workloads; reference-model oracles; shards rotate hash seed / cwd / -O / warnings-as-errors, every fifth real call runs under an unusual decimal context, repeated calls are compared with their first answer and first answers with a fresh interpreter")],
     checks=[CHECKS[k] for k in sorted(CHECKS)],
     notes="Exit 0 held / 1 VIOLATION / 2 INCONCLUSIVE. Known findings keyed by mechanism in known_findings.json. See DESIGN.md.",
     not_applicable=NA)
